@@ -1,7 +1,11 @@
 mod alloc;
+mod auth;
+mod autoalloc;
 mod common;
 mod restore;
+mod sched;
 mod sim;
+mod stream;
 
 #[global_allocator]
 static ALLOC: jemallocator::Jemalloc = jemallocator::Jemalloc;
@@ -279,6 +283,16 @@ fn main() {
             } else if prop == "C10" || prop == "C11" || prop == "C12" {
                 let p: &'static str = match prop { "C10" => "C10", "C11" => "C11", _ => "C12" };
                 run_engine(Arc::new(RestoreEngine { prop: p }), tier, seed)
+            } else if prop == "C20" {
+                run_engine(Arc::new(auth::AuthEngine), tier, seed)
+            } else if prop == "C19" {
+                run_engine(Arc::new(stream::StreamEngine), tier, seed)
+            } else if prop == "C15" {
+                run_engine(Arc::new(sched::SchedEngine), tier, seed)
+            } else if prop == "C17" {
+                run_engine(Arc::new(autoalloc::AutoEngine { prop: "C17" }), tier, seed)
+            } else if prop == "C18" {
+                run_engine(Arc::new(autoalloc::AutoEngine { prop: "C18" }), tier, seed)
             } else if prop == "C04" {
                 run_engine(Arc::new(alloc::AllocEngine { prop: "C04" }), tier, seed)
             } else if prop == "C16" {
@@ -299,6 +313,16 @@ fn main() {
             } else if prop == "C10" || prop == "C11" || prop == "C12" {
                 let p: &'static str = match prop { "C10" => "C10", "C11" => "C11", _ => "C12" };
                 replay_engine(&RestoreEngine { prop: p }, path)
+            } else if prop == "C20" {
+                replay_engine(&auth::AuthEngine, path)
+            } else if prop == "C19" {
+                replay_engine(&stream::StreamEngine, path)
+            } else if prop == "C15" {
+                replay_engine(&sched::SchedEngine, path)
+            } else if prop == "C17" {
+                replay_engine(&autoalloc::AutoEngine { prop: "C17" }, path)
+            } else if prop == "C18" {
+                replay_engine(&autoalloc::AutoEngine { prop: "C18" }, path)
             } else if prop == "C04" {
                 replay_engine(&alloc::AllocEngine { prop: "C04" }, path)
             } else if prop == "C16" {
